@@ -90,16 +90,16 @@ Theorem C03_json_one_line_per_document :
 Proof. exact one_line_per_document. Qed.
 
 (* The same two statements for the concrete model of the float spelling
-   (theories/JsonFloatModel.v, JsonFloatProofs.v): no premise is left. *)
-From XtModel Require Import JsonFloatModel JsonFloatProofs.
+   (theories/JsonFloatModel.v, JsonFloatProofs.v): no premise is left: the statements hold for every finite binary64 (ryu_ok_total). *)
+From XtModel Require Import JsonFloatModel JsonFloatProofs JsonFloatTotalProofs.
 
 Theorem C03_json_output_recovers_documents_with_floats :
-  forall vs : list jval, Forall (writable ryu_ok) vs ->
+  forall vs : list jval, Forall (writable f_finite) vs ->
     json_reader (jwrite_docs json_f64 vs) = (map jevs vs, JDone) /\
     json_slice (jwrite_docs json_f64 vs) = (map jevs vs, JDone).
 Proof.
-  intros vs H. split; [exact (json_reader_reads_docs json_f64 ryu_ok json_f64_reads json_f64_head vs H)
-                      |exact (json_slice_reads_docs json_f64 ryu_ok json_f64_reads json_f64_head vs H)].
+  intros vs H. split; [exact (json_reader_reads_docs json_f64 f_finite json_f64_reads_all json_f64_head_all vs H)
+                      |exact (json_slice_reads_docs json_f64 f_finite json_f64_reads_all json_f64_head_all vs H)].
 Qed.
 
 Theorem C03_json_one_line_per_document_with_floats :
